@@ -225,6 +225,10 @@ class Model:
                         ex = strip_refs(expr_operand(b, cap))
                         if ex.kind == "arg" and ex[1] - 1 < len(ct["args"]):
                             self.channel_cap[(cb.id, cbb)] = ct["args"][ex[1] - 1]
+                        else:
+                            # the wrapper computes the capacity itself (`max(1, graph.node_count())` of its parameter): the
+                            # expression, to be read with this call's arguments
+                            self.channel_cap[(cb.id, cbb)] = {"wrapped": (b, cap, ct)}
             else:
                 self.channels.append((b, bb, t))
                 if t["args"]:
